@@ -1372,6 +1372,11 @@ class SpaceManager(SharedSpaceOperations):
 
         for subspace in self._get_subs(space):
             if name in subspace.cells:
+                sub = subspace.cells[name]
+                if sub.is_derived():    # may now derive from the new cells
+                    subspace.clear_subs_rootitems()
+                    sub.on_inherit(
+                        self, self.get_deriv_bases(sub, defined_only=True))
                 continue
             else:
                 subspace.clear_subs_rootitems()
